@@ -90,11 +90,11 @@ class Path:
         return self.env.get(l)
 
 
-def walk(fa, start, stops, names=None, max_paths=600):
+def walk(fa, start, stops, names=None, max_paths=600, init=None):
     """[Path] — every acyclic way from the start of block `start` to the first block of `stops`
     (end == "stop", at = that block), to a return (end == "return") or into a diverging call
     (end == "diverge").  None if a block other than a stop repeats (an inner loop) or there are
-    too many ways."""
+    too many ways.  `init`: values known at `start` ({local: value}), e.g. loop-invariant constants."""
     body = fa.body
     names = names or {}
 
@@ -297,7 +297,25 @@ def walk(fa, start, stops, names=None, max_paths=600):
         raise Stop()
 
     try:
-        go(start, {}, {}, [], frozenset(), first=True)
+        go(start, dict(init or {}), {}, [], frozenset(), first=True)
     except Stop:
         return None
+    return out
+
+
+def loop_constants(ctx, fa, h, body):
+    """{local: constant} for the named locals that are only assigned outside the loop (h, body) and
+    whose value at the loop header is a compile-time constant"""
+    from .engine import ev
+    out = {}
+    for l in fa.body.locals:
+        i = l["i"]
+        if not l.get("name"):
+            continue
+        ds = fa.body.defs.get(i, [])
+        if not ds or any(d[1] in body for d in ds):
+            continue
+        v = ev(ctx, fa.origin_local(i, h, 0))
+        if isinstance(v, int) and not isinstance(v, bool):
+            out[i] = lf_const(v)
     return out
